@@ -138,14 +138,15 @@ def run(ctx: Ctx, rep: Report, tier: str):
     rets = [n for n in g2.nodes if n.kind == "stmt" and isinstance(n.ast, ast.Return) and fact_in(ctx.facts(pe).facts(n), "from_walk", True)]
     chg = [n for n in ctx.own_nodes(pe) if isinstance(n, ast.Assign) and isinstance(n.targets[0], ast.Name) and isinstance(n.value, ast.BoolOp)
            and {"hash", "path"} <= {x.attr for x in ast.walk(n.value) if isinstance(x, ast.Attribute)}]
-    cname = chg[0].targets[0].id if chg else "?"
+    cname = chg[0].targets[0].id if chg else None
     aname = local_assigned_from(ctx, pe, "self.state.lookup_oid(self.side, event.oid)") or "?"
+    from rules.common import unchanged_walk_facts
     ok = bool(rets)
     for r in rets:
         facts = ctx.facts(pe).facts(r)
-        ok = ok and fact_in(facts, aname, True) and fact_in(facts, cname, False)
-    ok = ok and len(chg) == 1 and isinstance(chg[0].value, ast.BoolOp) and isinstance(chg[0].value.op, ast.Or) and \
-        {"hash", "path"} <= {x.attr for x in ast.walk(chg[0].value) if isinstance(x, ast.Attribute)}
+        ok = ok and fact_in(facts, aname, True) and unchanged_walk_facts(facts, cname)
+    # the difference test is a disjunction of the two comparisons (in a local, or in place - then the facts above are its negation)
+    ok = ok and (not chg or (len(chg) == 1 and isinstance(chg[0].value, ast.BoolOp) and isinstance(chg[0].value.op, ast.Or)))
     rep.check("C14.W6", "_process_event|walk-dedupe", pe, ok, "dropped only when known and hash and path are equal", "walk events are dropped under a weaker condition (a changed object is missed) or never")
     from rules.common import refresh_marks_changed
     rep.rule("C14.W7", "a refresh that discovers a new hash or a new path stamps the side changed (unless ignored / already changed): what was learnt from the "
